@@ -65,11 +65,11 @@ def verify(name, wt):
     os.rename(aside, demo)
     extra = os.environ.get("DEMO_ARGS", "")
     res["demo_cargo_args"] = extra
-    rc, out = sh(f"cargo test --offline -p {pkg} --test demo_mut {extra} 2>&1 | grep -E '^test result|panicked|error' | head -5", cwd=wt)
+    rc, out = sh(f"cargo test --offline -p {pkg} --test demo_mut {extra} 2>&1 | grep -E '^test result|error' | head -5", cwd=wt)
     res["demo_with_change"] = out.strip().splitlines()
     res["demo_fails_with_change"] = "FAILED" in out or "failed" in out
     sh("git apply -R mutation.patch", cwd=wt)
-    rc, out = sh(f"cargo test --offline -p {pkg} --test demo_mut {extra} 2>&1 | grep -E '^test result|panicked|error' | head -5", cwd=wt)
+    rc, out = sh(f"cargo test --offline -p {pkg} --test demo_mut {extra} 2>&1 | grep -E '^test result|error' | head -5", cwd=wt)
     res["demo_without_change"] = out.strip().splitlines()
     res["demo_passes_without_change"] = "test result: ok" in out and "FAILED" not in out
     sh("git apply mutation.patch", cwd=wt)
